@@ -6,16 +6,24 @@ output again.  Evidence and replays written during these runs are restored after
 import hashlib, os, shutil, subprocess, sys, tempfile, time
 VERIF = os.path.dirname(os.path.dirname(os.path.abspath(__file__)))
 args = sys.argv[1:]
-tier = 'quick'; rev = None; patch = None; props = []
+tier = 'quick'; rev = None; patch = None; props = []; persist = False
 i = 0
 while i < len(args):
     if args[i] == '--tier': tier = args[i + 1]; i += 2
+    elif args[i] == '--persist': persist = True; i += 1   # reuse /tmp/vmut-persist and its build output (incremental rebuilds); remove it yourself when done
     elif args[i] == '--reverse-commit': rev = args[i + 1]; i += 2
     elif patch is None and rev is None and os.path.exists(args[i]): patch = os.path.abspath(args[i]); i += 1
     else: props.append(args[i]); i += 1
-wt = tempfile.mkdtemp(prefix='vmut-', dir='/tmp')
-os.rmdir(wt)
-subprocess.check_call(['git', '-C', '/repo', 'worktree', 'add', '--detach', wt, 'HEAD'], stdout=subprocess.DEVNULL, stderr=subprocess.DEVNULL)
+if persist:
+    wt = '/tmp/vmut-persist'
+    if not os.path.isdir(wt):
+        subprocess.check_call(['git', '-C', '/repo', 'worktree', 'add', '--detach', wt, 'HEAD'], stdout=subprocess.DEVNULL, stderr=subprocess.DEVNULL)
+    subprocess.check_call(['git', '-C', wt, 'checkout', '-q', '--detach', subprocess.check_output(['git', '-C', '/repo', 'rev-parse', 'HEAD'], text=True).strip()])
+    subprocess.check_call(['git', '-C', wt, 'checkout', '-q', '--', '.'])
+else:
+    wt = tempfile.mkdtemp(prefix='vmut-', dir='/tmp')
+    os.rmdir(wt)
+    subprocess.check_call(['git', '-C', '/repo', 'worktree', 'add', '--detach', wt, 'HEAD'], stdout=subprocess.DEVNULL, stderr=subprocess.DEVNULL)
 bdir = os.path.join(VERIF, 'build-' + hashlib.sha1(wt.encode()).hexdigest()[:8])
 evbak = tempfile.mkdtemp(prefix='vmut-ev-', dir='/tmp')
 try:
@@ -40,5 +48,9 @@ try:
                 break
         if verdict == 'BUILD-FAILED': print(r.stdout[-1500:])
 finally:
-    subprocess.call(['git', '-C', '/repo', 'worktree', 'remove', '--force', wt], stdout=subprocess.DEVNULL, stderr=subprocess.DEVNULL)
-    shutil.rmtree(wt, ignore_errors=True); shutil.rmtree(bdir, ignore_errors=True); shutil.rmtree(evbak, ignore_errors=True)
+    if persist:
+        subprocess.call(['git', '-C', wt, 'checkout', '-q', '--', '.'])
+        shutil.rmtree(evbak, ignore_errors=True)
+    else:
+        subprocess.call(['git', '-C', '/repo', 'worktree', 'remove', '--force', wt], stdout=subprocess.DEVNULL, stderr=subprocess.DEVNULL)
+        shutil.rmtree(wt, ignore_errors=True); shutil.rmtree(bdir, ignore_errors=True); shutil.rmtree(evbak, ignore_errors=True)
